@@ -1,6 +1,7 @@
 import SasLexer.Spec.Basic
 import SasLexer.Properties.C03
 import SasLexer.Proofs.Kernel.Mono
+import SasLexer.Properties.C19
 /-!
 # C02 — tokens tile the source and end in a single EOF: theorems
 
@@ -10,8 +11,8 @@ configuration).  Proved here, for **every control logic over the primitives** (k
 * `kernel_C02_boundaries` — every token start is a character boundary within the source;
 * `kernel_C02_last_eof` — the detached buffer always ends in an `EOF` token;
 * `kernel_C02_monotone_debug` — in a debug build, unless an assertion fired, start offsets
-  never decrease (for the release build of the same control logic this transfers through
-  `run_profile`, the kernel theorem of C19).
+  never decrease; `kernel_C02_monotone_release` — the release build of the same control logic
+  then has sorted starts too (transported through `run_profile`, the kernel theorem of C19).
 
 Not proved (model level, `_partial`): uniqueness of `EOF`, `EOF` at the end of the text and
 "first token at the BOM end" need the control logic's protocol (no `EOF` emitted before
@@ -49,6 +50,18 @@ theorem kernel_C02_monotone_debug (cfg : Cfg) (hd : cfg.debug = true) {α} (p : 
     (Prog.run cfg p (Lexer.new cfg s)).2.panicked = none →
     SortedR (Prog.run cfg p (Lexer.new cfg s)).2.toksR :=
   (run_KMono cfg hd p _ (new_KMono cfg s)).sorted
+
+/-- release build: if the debug build of the same program (same features) runs without firing an
+assertion, the release build's token list is sorted too (`run_KMono` transported by `run_profile`) -/
+theorem kernel_C02_monotone_release (c : Cfg) (hrel : c.debug = false) {α} (p : Prog α) (s : List Char) :
+    (Prog.run { c with debug := true } p (Lexer.new { c with debug := true } s)).2.panicked = none →
+    SortedR (Prog.run c p (Lexer.new c s)).2.toksR := by
+  intro h
+  have hs := kernel_C02_monotone_debug { c with debug := true } rfl p s h
+  have he := (kernel_C19_debug_release { c with debug := true } c rfl hrel p s h).2.1
+  have : (Prog.run { c with debug := true } p (Lexer.new { c with debug := true } s)).2.toksR
+      = (Prog.run c p (Lexer.new c s)).2.toksR := congrArg (fun L => L.toksR) he
+  rw [← this]; exact hs
 
 /-- non-vacuity: a run with rollback and zero-width recovery tokens on which all clauses hold -/
 example : Spec.C02 "%m(a =1 /*c*/ ; x".toList (modelDump ⟨true, true, false⟩ "%m(a =1 /*c*/ ; x".toList) = [] := by
